@@ -1,21 +1,41 @@
 """One function per property: check_<id>(tier) -> exit code."""
 import json, os, sys
 from common import *
-import lockstep
+import lockstep, random
+import gen_linear as GL
 
 
 def T(tier, q, t):
     return q if tier == "quick" else t
 
 
+def rng_for(tag):
+    return random.Random("%d-%s" % (seed(), tag))
+
+
+def placements(tier, tag):
+    r = rng_for(tag)
+    k = T(tier, 1, 12)
+    return (GL.fam_literals(r, 12 * k) + GL.fam_ops(r, 120 * k) + GL.fam_ifc(r, 100 * k) + GL.fam_print(r, 44 * min(k, 4))
+            + GL.fam_arity(7))
+
+
+def codegen_check(pid, tier, backend):
+    plan = T(tier, [("base", 110), ("spill", 50), ("objects", 40)], [("base", 1500), ("spill", 800), ("objects", 700)])
+    return lockstep.lockstep_check(
+        pid, tier, [backend], plan, maxsteps=T(tier, 5000, 20000), timeout=T(tier, 900, 7000),
+        directed=placements(tier, pid),
+        extra_rule="plus directed linear families: literals of every magnitude at every position, 5 operators and 12 "
+                   "comparison forms with operands/targets at enumerated positions across the register/spill boundary, "
+                   "prints with 0..21 live variables, main arities 0..7")
+
+
 def check_C06(tier):
-    plan = T(tier, [("base", 120), ("spill", 60), ("objects", 50)], [("base", 1500), ("spill", 800), ("objects", 700)])
-    return lockstep.lockstep_check("C06", tier, ["x86"], plan, maxsteps=T(tier, 5000, 20000), timeout=T(tier, 900, 6000))
+    return codegen_check("C06", tier, "x86")
 
 
 def check_C07(tier):
-    plan = T(tier, [("base", 120), ("spill", 60), ("objects", 50)], [("base", 1500), ("spill", 800), ("objects", 700)])
-    return lockstep.lockstep_check("C07", tier, ["a64"], plan, maxsteps=T(tier, 5000, 20000), timeout=T(tier, 900, 6000))
+    return codegen_check("C07", tier, "a64")
 
 
 def replay(pid, path):
